@@ -210,6 +210,19 @@ def c14(tier):
     sc = {"prop": "C14", "cfgs": cf, "alphabet": [-3, 0, 1, 4], "unit": 2, "maxlen": L, "bitexact": True}
     run.submit(p1_job, "pointwise", "MC_Def", sc)
     with_model(run, "pointwise", sc)
+    # bit-exactness in general: children as stand-alone siblings (positions ia, ib), decimal inputs (unit 10, 7) so that
+    # operands and results are NOT exactly representable; the combinator must return the IEEE-rounded result of one operation
+    for unit, alpha in ((10, [-7, 0, 3, 12]), (7, [1, 2, 5, 9]), (1000000, [-3, 1, 4, 9])):
+        kids = [E, {"k": "Constant", "v": [1, 3]}, sma(2), sma(3), {"k": "Roc", "n": 1}, {"k": "Ema", "n": 2}]
+        cfx = list(kids)
+        for b in ("Add", "Subtract", "Multiply", "Divide"):
+            for i, x in enumerate(kids):
+                for j, y in enumerate(kids):
+                    cfx.append({"k": b, "c": [x, y], "ia": i + 1, "ib": j + 1})
+        for i, x in enumerate(kids):
+            cfx.append({"k": "RefTanh", "c": [x]})
+            cfx.append({"k": "Tanh", "c": [x], "iref": len(cfx)})
+        run.submit(p1_job, "rounded-u%d" % unit, "MC_Def", {"prop": "C14", "cfgs": cfx, "alphabet": alpha, "unit": unit, "maxlen": L})
     Kp = [E, {"k": "LnReturn"}, sma(2), {"k": "Constant", "v": [5, 4]}]
     cfp = [{"k": b, "c": [x, y]} for b in ("Add", "Subtract", "Multiply", "Divide") for x in Kp for y in Kp if "LnReturn" in (x["k"], y["k"])]
     cfp += [{"k": g, "v": [1, 4], "c": [{"k": "LnReturn"}]} for g in ("GTE", "LTE")] + [{"k": "Tanh", "c": [{"k": "LnReturn"}]}]
@@ -614,6 +627,9 @@ def c17(tier):
         for h, part in enumerate((cat[:half], cat[half:])):
             run.submit(p2_job, "twin-n%d-%d" % (n, h), {"cfgs": part, "inputs": [1, 2], "unit": 1, "slots": 4, "depth": 99, "steps": st}, "C17",
                        exhaustive=True, gen="SFTwin")
+    stat = [c for c in catalogue(3, positive=True) if c["k"] in ("WelfordOnline", "Vst", "Vsct", "WelfordRolling", "HLNormalizer", "CorrelationTrendIndicator",
+                                                                "CenterOfGravity", "NoiseEliminationTechnology", "Rsi", "MyRSI", "Sma", "Alma")]
+    run.submit(p2_job, "twin-3sym", {"cfgs": stat, "inputs": [1, 3, 2], "unit": 1, "slots": 4, "depth": 99, "steps": 4}, "C17", exhaustive=True, gen="SFTwin")
     chn = chains2(catalogue(2, positive=True), sma(2))
     run.submit(p2_job, "twin-chains", {"cfgs": chn, "inputs": [1, 2], "unit": 1, "slots": 4, "depth": 99, "steps": 4}, "C17", exhaustive=True, gen="SFTwin")
     # exhaustive small depth on two slots: every interleaving of new/update/last/clone/drop
@@ -762,9 +778,9 @@ def c09(tier):
         quiet = [rnd.randint(-60, 60) for _ in range(H)]
         add(cfg, "pair", [rnd.choice([-1000, 1000, 0, 500]) for _ in range(1500)] + quiet, [rnd.randint(-5, 5) for _ in range(1500)] + quiet, tailabs=60)
         # ... nine decades louder than the tail: rounding residue of the past must not stay in the answers either
-        tail3 = [rnd.randint(-5000, 5000) for _ in range(H)]
+        tail3 = [rnd.randint(-3, 3) for _ in range(H)]
         add(cfg, "pair", [rnd.choice([-2000000000, 2000000000, 1500000000]) for _ in range(300)] + tail3, [rnd.randint(-3000, 3000) for _ in range(300)] + tail3,
-            unit=1000, maxabs=2000000000, tailabs=5000)
+            unit=1000, maxabs=2000000000, tailabs=3)
     out = record(run, "streams", progs)
     lines = []
     for m, r in zip(meta, out):
@@ -789,8 +805,9 @@ def c18(tier):
     for n in ((1, 3, 16) if tier == "quick" else (1, 3, 16, 64)):
         for cfg in c18_cfgs(n):
             L0 = 8 * (2 * n + 4)
-            for period in ([12, 15, 11, 18, 18, 9, 14], [7], [5, 5, 9, 9, 9, 2]):      # varied, constant, ties
-                exps.append({"cfg": cfg, "unit": 10, "marks": [L0, 4 * L0, 16 * L0 if tier == "quick" else 256 * L0], "period": period})
+            for period, ramp in (([12, 15, 11, 18, 18, 9, 14], 0), ([7], 0), ([5, 5, 9, 9, 9, 2], 0),      # varied, constant, ties
+                                 ([100, 130, 110, 150, 120], 8), ([100, 80, 95, 60], -1)):         # rising zigzag (new highs for ever), falling
+                exps.append({"cfg": cfg, "unit": 10, "marks": [L0, 4 * L0, 16 * L0 if tier == "quick" else 256 * L0], "period": period, "ramp": ramp})
     # model level: the machines' buffers stay under CellBound along constant and two-symbol streams four windows long
     for n in ((1, 3, 16) if tier == "quick" else (1, 2, 3, 5, 16, 64)):
         run.submit(model_job, "cells-n%d" % n, {"cfgs": [c for c in catalogue(n) if modelled(c)], "alphabet": [2] if n > 3 else [-1, 2], "unit": 1,
